@@ -355,7 +355,10 @@ class RefSFTP:
             self.status(rid, FX_OK if f.get('applied') else FX_FAILURE)
         elif t in (FXP['STAT'], FXP['LSTAT']):
             a = self._attrs_of(f['path'])
-            if a is None:
+            if getattr(self, 'deny_stat_after_readlink', False) and f['path'] in getattr(self, '_readlinked', ()):
+                # opt-in: a server that refuses to describe a link whose target it has just handed out
+                self.status(rid, 3)
+            elif a is None:
                 self.status(rid, FX_NO_SUCH_FILE)
             else:
                 self._send(bytes([FXP['ATTRS']]) + u32(rid) + a)
@@ -415,6 +418,9 @@ class RefSFTP:
             self.status(rid, FX_OK)
         elif t == FXP['READLINK']:
             tgt = self.links.get(f['path'])
+            if not hasattr(self, '_readlinked'):
+                self._readlinked = set()
+            self._readlinked.add(f['path'])
             if tgt is None:
                 self.status(rid, FX_NO_SUCH_FILE)
             else:
